@@ -17,7 +17,7 @@ import (
 func init() {
 	register(&Property{
 		ID:       "C15",
-		Patterns: []string{"./services/storage"},
+		Patterns: []string{"./services/storage", "./services/storage/storagetest"},
 		Run:      runC15,
 		Explanation: "The indexed store's consistency as structure: every multi-key mutation runs in one Update closure, and inside every transaction body a storage error is neither discarded nor answered with nil (a nil return commits); DoUpdate/DoView pair Begin with a deferred Rollback and commit only after the body returned nil; " +
 			"putTx equals its exists/replace reference table and maintains every index (put new key, delete old key exactly when replacing and the key changed), DeleteTx removes the data key and every index key, RebuildTx clears and refills every index — all loops over the indexes run to completion; " +
@@ -28,6 +28,7 @@ func init() {
 }
 
 func runC15(c *core.Ctx) {
+	c15BucketPath(c)
 	c.Rule("C15.txerr", "A10: in every transaction body of services/storage an error of tx.Put/Delete/Get/List/Exists is not discarded and, where found non-nil, makes the body return a non-nil error")
 	c.Rule("C15.txwrap", "A2: DoUpdate begins a transaction, defers Rollback, runs the body, returns its error without committing, commits only after a nil error; DoView defers Rollback and never commits")
 	c.Rule("C15.put", "A1: putTx: exists∧¬allowReplace ⇒ ErrObjectExists without any write; ¬exists∧requireReplace ⇒ ErrNoObjectExists without any write; otherwise data Put, then per index: Put(newKey) iff ¬replacing ∨ oldKey≠newKey, and Delete(oldKey) after it iff replacing ∧ oldKey≠newKey")
